@@ -78,11 +78,14 @@ def conj_lit(trees, index):
     return out
 
 
-def care_within_hints(inst, limits, doms):
+def care_within_hints(inst, limits, doms, idx):
+    """care => type hints of the variables f or care depend on (positions
+    idx), as cover._care_implies_type_hints decides it."""
     pts = inst['care']
     if pts is None:
-        return all(tuple(l) == tuple(d) for l, d in zip(limits, doms))
-    return all(all(d[0] <= v <= d[1] for v, d in zip(p, doms)) for p in pts)
+        return all(tuple(limits[i]) == tuple(doms[i]) for i in idx)
+    return all(all(doms[i][0] <= p[i] <= doms[i][1] for i in idx)
+               for p in pts)
 
 
 def f_within_care(inst):
@@ -104,8 +107,10 @@ def work(job):
     ctx = pb.ctx
     res.update(limits=pb.limits, names=pb.names, doms=pb.doms,
                support=pb.support_names(),
-               eff_dom=care_within_hints(inst, pb.limits, pb.doms),
                f_in_care=f_within_care(inst))
+    res['eff_dom'] = care_within_hints(
+        inst, pb.limits, pb.doms,
+        [pb.names.index(x) for x in res['support']])
     try:
         cover = cov.minimize(pb.f, pb.care, ctx)
         boxes, xs = pb.read_boxes(cover)
